@@ -82,7 +82,9 @@ Definition spec_handler (set : bool) : handler (database * N) := {|
 
 Inductive item :=
 | IOps (ops : list op)               (* a batch of rodbus_database_* calls on unit 1's database *)
-| IFrame (u : N) (pdu : list N).     (* one MBAP request addressed to unit u *)
+| IFrame (u : N) (pdu : list N)      (* one MBAP request addressed to unit u *)
+| IDup (ops : list op).              (* rodbus_device_map_add_endpoint AGAIN for unit 1 (before the server exists), its configure
+                                        callback running ops: refused - returns false, the callback does not run, nothing changes *)
 
 Definition wire_units := ucfg (database * N).
 Definition apply_ops (units : wire_units) (ops : list op) : wire_units * list result :=
@@ -103,6 +105,8 @@ Fixpoint run_items_spec (set : bool) (units : wire_units) (tx : N) (items : list
       let '(bs, units', _) := ref_handle_frame (spec_handler set) LTcp NoAuth units fr in
       let '(out, u') := run_items_spec set units' (tx + 1)%N rest in
       (show_bytes_or_dash bs :: out, u')
+  | IDup _ :: rest =>
+      let '(out, u') := run_items_spec set units tx rest in ("dup=F" :: out, u')
   end.
 
 Definition run_wire_spec (set : bool) (items : list item) : string :=
